@@ -73,7 +73,24 @@ def nodePoly (ps : List Poly) : RNode → Poly
 
 def polysFrom (ps : List Poly) : RProg → List Poly
   | [] => ps
-  | n :: rest => polysFrom (ps ++ [nodePoly ps n]) rest
+  | n :: rest => polysFrom (ps ++ [collect (nodePoly ps n)]) rest
+
+/-- size guard used by the driver before it runs the validator: every product stays below `cap`
+    terms before collection and every collected polynomial below `cap` symbols.  No theorem is
+    needed about it: when it answers `false` the validation is skipped and nothing is claimed. -/
+def polySize (p : Poly) : Nat := p.foldl (fun n t => n + t.1.length + 1) 0
+
+def withinBudget (cap : Nat) : List Poly → RProg → Bool
+  | _, [] => true
+  | ps, n :: rest =>
+    let cost := match n with
+      | .mul a b => (argPoly ps a).length * (argPoly ps b).length
+      | .muladd a b _ => (argPoly ps a).length * (argPoly ps b).length
+      | _ => 0
+    if cost > cap then false
+    else
+      let p := collect (nodePoly ps n)
+      if polySize p > cap then false else withinBudget cap (ps ++ [p]) rest
 
 def polys (p : RProg) : List Poly := polysFrom [] p
 
